@@ -56,9 +56,7 @@ KF_C02_1_Sym(X, name) ==
 (* KF-C03-2  a patch that ends in jmp/ret/indirect jmp inserted inside a   *)
 (*           block: its empty continuation is joined and its fallthrough   *)
 (*           edge ends up on the terminator.                               *)
-(* KF-C03-3  a patch calling the function of the block it is inserted     *)
-(*           into, ahead of that block's ret: the new return edge is       *)
-(*           attached to the head of the split block.                      *)
+(* (KF-C03-3 was repaired in /repo, see known_findings.json FX-C03-3)      *)
 (* KF-C03-4  a ret created by a patch in a function without return edges   *)
 (*           to real return sites gets a proxy instead of the sites of the *)
 (*           calls to the function.                                        *)
@@ -71,30 +69,23 @@ FirstSurvivingOfBlock(X, nm, p) ==
   IN  /\ y.src = "orig"
       /\ ~\E i \in DOMAIN X.E[nm] : X.E[nm][i].t = "unit" /\ X.E[nm][i].src = "orig"
                                      /\ X.E[nm][i].u = y.u /\ X.P[nm][i] < p
+\* the source lies in the extent of an original block that could not fall
+\* through (jmp / indirect jmp / ret), and either that terminator is removed by
+\* the batch or code was put behind it
 KF_C03_1_Edge(X, e) ==
-  /\ HasFns(X) /\ e.ty = "Fallthrough" /\ e.d[1] = "i"
-  /\ FirstSurvivingOfBlock(X, e.d[2], e.d[3])
-  /\ LastKind(PrevBlock(X.t.pre, UnitAt(X, e.d[2], e.d[3]).u)) \in {"jmp", "ijmp", "ret"}
+  /\ e.ty = "Fallthrough"
+  /\ LET x == UnitAt(X, e.s[1], e.s[2])
+         b == BlockByU(X.t.pre, x.au)
+     IN  /\ LastKind(b) \in {"jmp", "ijmp", "ret"}
+         /\ \/ Covered(X.t.reqs, b.u, b.units[Len(b.units)].o)
+            \/ (x.src = "patch" /\ x.ao = b.n)
+            \/ (e.d[1] = "i" /\ LET y == UnitAt(X, e.d[2], e.d[3])
+                                IN  y.src = "patch" /\ y.au = b.u /\ y.ao = b.n)
 KF_C03_2_Edge(X, e) ==
   /\ HasFns(X) /\ e.ty = "Fallthrough"
   /\ LET x == UnitAt(X, e.s[1], e.s[2])
      IN  x.src = "patch" /\ x.k \in {"jmp", "ijmp", "ret"}
 
-\* requests whose patch calls the function of the block they are inserted into
-RecursiveCallReqs(X, K) ==
-  {r \in Range(X.t.reqs) :
-     /\ r.op \in {"ins", "rep"}
-     /\ LET b == BlockByU(X.t.pre, r.u)
-        IN  /\ b.fn # <<>>
-            /\ \E j \in DOMAIN b.units : b.units[j].k = "ret" /\ b.units[j].o >= r.off + r.len
-            /\ \E u \in DOMAIN K.exp.res : u.it.src = "patch" /\ u.it.rid = r.id /\ u.it.k = "call"
-                                            /\ b.fn[1] \in Range(K.exp.res[u].fn)}
-KF_C03_3_Edge(X, K, e) ==
-  /\ HasFns(X) /\ e.ty = "Return"
-  /\ \E r \in RecursiveCallReqs(X, K) :
-        \/ UnitAt(X, e.s[1], e.s[2]).u = r.u          \* an edge leaving the split block
-        \/ \E u \in K.exp.units : u.it.src = "patch" /\ u.it.rid = r.id /\ u.it.k = "call"
-                                   /\ e.d = Succ(X, u)  \* an edge to the patch call's return site
 PreHasRealReturns(X, f) ==
   \E i \in DOMAIN X.t.pre.edges :
      /\ X.t.pre.edges[i].ty = "Return" /\ X.t.pre.edges[i].t[1] = "blk"
@@ -149,13 +140,26 @@ KF_C01_1(X) ==
                nb == NextBlockU(X.t.pre, r.u)
            IN  r.off + r.len = b.n /\ (nb = 0 \/ BlockByU(X.t.pre, nb).k # "code")
 
+\* KF-C09-1: a patch names a label whose block an earlier request of the same
+\* batch deleted entirely: Symbol.referent is None while the reference is
+\* indirect, and the assembler reads it directly.
+KF_C09_1(X) ==
+  \E r \in Range(X.t.reqs) :
+     /\ r.op \in {"ins", "rep"}
+     /\ \E j \in DOMAIN r.patch.units :
+           LET nm == r.patch.units[j].tgb
+           IN  /\ nm # ""
+               /\ \E b \in Range(AllBlocks(X.t.pre)) :
+                     /\ (nm \in Range(b.ss) \/ nm \in Range(b.es))
+                     /\ WholeDeleted(X.t.pre, X.t.reqs, b.u)
+                     /\ b.p < BlockByU(X.t.pre, r.u).p
+
 Explained(X, K, clause, e) ==
   (IF clause = "C03_Fallthrough" /\ KF_C03_1_Edge(X, e) /\ e \in K.exp.ft THEN {"KF-C03-1"} ELSE {})
   \cup (IF clause = "C03_Fallthrough" /\ KF_C03_2_Edge(X, e) /\ e \notin K.exp.ft THEN {"KF-C03-2"} ELSE {})
   \cup (IF clause = "C03_Returns" /\ KF_C03_4_Edge(X, e) THEN {"KF-C03-4"} ELSE {})
   \cup (IF clause = "C03_Returns" /\ KF_C03_5_Edge(X, e) THEN {"KF-C03-5"} ELSE {})
   \cup (IF clause = "C03_Returns" /\ KF_C03_7_Edge(X, e) THEN {"KF-C03-7"} ELSE {})
-  \cup (IF clause = "C03_Returns" /\ KF_C03_3_Edge(X, K, e) THEN {"KF-C03-3"} ELSE {})
   \cup (IF clause = "C03_Returns" /\ KF_C03_6_Edge(X, K, e) THEN {"KF-C03-6"} ELSE {})
 
 SDiff(a, b) == (a \ b) \cup (b \ a)
@@ -177,6 +181,7 @@ KfTags(X, K, clause) ==
     [] clause = "C03_Returns" ->
          ExplainAll(X, K, clause, SDiff(K.exp.ret, ByType(K.obs, {"Return"})))
     [] clause \in {"C01_Completes", "C03_Completes", "C05_Completes"} ->
-         IF KF_C01_1(X) THEN {"KF-C01-1"} ELSE {}
+         IF KF_C01_1(X) THEN {"KF-C01-1"}
+         ELSE IF KF_C09_1(X) /\ X.t.exc = "UnsupportedAssemblyError" THEN {"KF-C09-1"} ELSE {}
     [] OTHER -> {}
 =============================================================================
